@@ -12,7 +12,7 @@ def log(*a):
 
 # ------------------------------------------------------------------ implementation side
 
-class CaseTimeout(Exception):
+class CaseTimeout(BaseException):   # not an Exception: code under test that catches Exception must not swallow the harness timeout
     pass
 
 def _alarm(signum, frame):
